@@ -364,6 +364,12 @@ def misuse_checks():
               ('TruncatedGaussian instance with bounds', TruncatedGaussian(minimum=-3, maximum=8), TruncatedGaussian, {'min': -3, 'max': 8}),
               ('fitted TruncatedGaussian without bounds', _fitted(TruncatedGaussian()), TruncatedGaussian, {'min': None, 'max': None}),
               ('Univariate with filters', Univariate(parametric=UB.ParametricType.PARAMETRIC, bounded=UB.BoundedType.BOUNDED), Univariate, None),
+              ('Univariate with positional candidate list', Univariate([GaussianUnivariate, UniformUnivariate]), Univariate, None),
+              ('Univariate with positional filters', Univariate(None, UB.ParametricType.PARAMETRIC, UB.BoundedType.BOUNDED), Univariate, None),
+              ('TruncatedGaussian with positional bounds', TruncatedGaussian(-50, 50), TruncatedGaussian, {'min': -50, 'max': 50}),
+              ('TruncatedGaussian with a zero bound', TruncatedGaussian(minimum=0, maximum=10), TruncatedGaussian, {'min': 0, 'max': 10}),
+              ('GaussianKDE with positional sample_size', GaussianKDE(25), GaussianKDE, {'_sample_size': 25}),
+              ('GaussianKDE with weights', GaussianKDE(weights=np.array([0.2, 0.8]), bw_method=0.3), GaussianKDE, {'bw_method': 0.3}),
               ('fitted Univariate with candidates', _fitted(Univariate(candidates=[GaussianUnivariate])), Univariate, None)]
     for nm, proto, cls, attrs in protos:
         try:
@@ -400,7 +406,9 @@ def havoc_in_vine(d, tree_type):
                 if isinstance(e.tau, SymReal) and uses_havoc(e.tau.t):
                     out += 1
             if isinstance(t.tau_matrix, np.ndarray) and t.tau_matrix.dtype == object:
-                pass
+                for x in t.tau_matrix.flat:
+                    if isinstance(x, SymReal) and uses_havoc(x.t):
+                        out += 1
     return {'d': d, 'type': tree_type, 'paths': len(paths), 'exhaustive': ex, 'decisions': dec, 'stored': out}
 
 
@@ -423,15 +431,181 @@ def concrete_havoc(tree_type, d=4):
         try:
             v = VineCopula(tree_type)
             v.fit(X, truncated=d)
-            outs.append(repr([[(e.L, e.R, sorted(e.D), float(np.round(e.tau, 9)) if e.tau is not None else None) for e in t.edges] for t in v.trees]))
+            outs.append(repr([[(e.L, e.R, sorted(e.D), float(np.round(e.tau, 9)) if e.tau is not None else None) for e in t.edges] for t in v.trees])
+                        + repr([np.round(np.asarray(t.tau_matrix, dtype=float), 9).tolist() for t in v.trees]))
         finally:
             TR.np.empty = real_empty
-    return outs[0] != outs[1], f'{tree_type} vine on {d} columns: fitted edges differ when np.empty returns different garbage: {outs[0][:150]} vs {outs[1][:150]}'
+    return outs[0] != outs[1], f'{tree_type} vine on {d} columns: fitted edges / stored tau matrices differ when np.empty returns different garbage'
+
+
+class KDEUniStub:
+    """stands for GaussianKDE inside the vine module: records its training column"""
+
+    def __init__(self, *a, **k):
+        self.data = None
+        self.fitted = False
+
+    def fit(self, X):
+        self.data = list(np.asarray(X, dtype=object).flat)
+        self.fitted = True
+
+    def cumulative_distribution(self, X):
+        X = np.asarray(X, dtype=object)
+        return objarr([uf_of('kdecdf', 0, [x] + self.data) for x in X.flat])
+
+    def percent_point(self, U):
+        return np.asarray(U, dtype=object)
+
+    def to_dict(self):
+        return {'type': 'stub', 'dataset': list(self.data)}
+
+
+def vine_state(v):
+    return {'fitted': leaf(bool(v.fitted)), 'n_var': leaf(v.n_var), 'n_sample': leaf(v.n_sample), 'columns': leaf(list(v.columns)),
+            'trees': leaf([[(e.L, e.R, sorted(e.D), str(e.name), e.theta, e.tau) for e in t.edges] for t in v.trees]),
+            'unis': leaf([u.data for u in v.unis]), 'u_matrix': leaf(v.u_matrix), 'tau_mat': leaf(np.asarray(v.tau_mat, dtype=object))}
+
+
+def vine_two_fit(tree_type, d=2):
+    """VineCopula: fit(A).fit(B) == fit(B) (symbolic tables, stubbed marginals / pair copulas / Kendall matrix)"""
+    import copulas.multivariate.tree as TR
+    import copulas.multivariate.vine as VN
+    from .c17 import LBiv
+    from . import stubs
+
+    def kendall_corr(self, method='pearson', **k):
+        A_ = self.to_numpy()
+        dd = A_.shape[1]
+        M = np.empty((dd, dd), dtype=object)
+        for i in range(dd):
+            for j in range(dd):
+                M[i, j] = 1.0 if i == j else uf_of('ktau', 0, list(A_[:, min(i, j)]) + list(A_[:, max(i, j)]))
+        for i in range(dd):
+            for j in range(i + 1, dd):
+                Ctx.cur.assume(tz(M[i, j]) >= -1, tz(M[i, j]) <= 1)
+        return pd.DataFrame(M)
+
+    def fn(ctx):
+        rng = RNGModel()
+        LBiv.reset()
+        A = pd.DataFrame(objarr([[sym(f'a{r}{c}') for c in range(d)] for r in range(2)]), columns=[f'v{c}' for c in range(d)])
+        B = pd.DataFrame(objarr([[sym(f'b{r}{c}') for c in range(d)] for r in range(2)]), columns=[f'v{c}' for c in range(d)])
+        sh = NPShim(havoc_empty=True, force_obj=True, random=rng)
+        kt = stubs.KendallStub('kt', check_const=False)
+        with warnings.catch_warnings():
+            warnings.simplefilter('ignore')
+            with patched(TR, np=sh, Bivariate=LBiv, scipy=ns(stats=ns(kendalltau=kt))), patched(VN, np=sh, Bivariate=LBiv, GaussianKDE=KDEUniStub), \
+                    patched(UT, np=NPShim(havoc_empty=False, random=rng)), patched(pd.DataFrame, corr=kendall_corr):
+                m1 = VineCopula(tree_type)
+                m1.fit(A)
+                LBiv.n = 0
+                m1.fit(B)
+                LBiv.n = 0
+                m2 = VineCopula(tree_type)
+                m2.fit(B)
+                s1, s2 = vine_state(m1), vine_state(m2)
+        return s1, s2
+    paths, ex, _ = explore(fn, max_paths=3000, tlimit=200)
+    fails = []
+    for p in paths:
+        if p.status != 'ok':
+            fails.append({'what': f'{p.status}: {type(p.exc).__name__}: {str(p.exc)[:120]}', 'A': None, 'B': None})
+            continue
+        s = z3.Solver()
+        s.set('timeout', 20000)
+        s.add(*p.ctx.pc)
+        dd = diff_state(p.value[0], p.value[1], s)
+        if dd:
+            fails.append({'what': '; '.join(dd[:3]), 'A': None, 'B': None})
+    return {'fam': f'VineCopula({tree_type!r})', 'na': 2, 'nb': 2, 'paths': len(paths), 'exhaustive': ex, 'fails': fails[:4], 'nfails': len(fails)}
+
+
+def gm_two_fit():
+    """GaussianMultivariate: fit(A).fit(B) == fit(B)"""
+    from . import gm
+    import copulas.multivariate.gaussian as G
+
+    def fn(ctx):
+        rng = RNGModel()
+        gm.StubDist.COLIDX = {'c': 0, 'a': 1}
+        gm.StubDist.FITS = []
+        gm.StubDist.RAISE_ON = set()
+        A = pd.DataFrame(objarr([[sym(f'a{r}{c}') for c in range(2)] for r in range(2)]), columns=['c', 'a'])
+        B = pd.DataFrame(objarr([[sym(f'b{r}{c}') for c in range(2)] for r in range(2)]), columns=['c', 'a'])
+        cs = gm.CorrStub()
+
+        def st(m):
+            return {'columns': leaf(list(m.columns)), 'unis': leaf([type(u).__name__ for u in m.univariates]),
+                    'fitted': leaf(bool(m.fitted)), 'corr_labels': leaf(list(m.correlation.index) + list(m.correlation.columns)),
+                    'corr_shape': leaf(list(m.correlation.shape))}
+        with gm.gm_patches(rng=rng), patched(pd.DataFrame, corr=lambda self, *a, **k: cs(self, *a, **k)):
+            m1 = GaussianMultivariate(distribution=gm.StubDist)
+            m1.fit(A)
+            m1.fit(B)
+            n1 = len(gm.StubDist.FITS)
+            m2 = GaussianMultivariate(distribution=gm.StubDist)
+            m2.fit(B)
+            fits = gm.StubDist.FITS
+            ok_fit = all(tz(x).eq(tz(y)) for f1, f2 in zip(fits[n1 - 2:n1], fits[n1:]) for x, y in zip(f1[2], f2[2]))
+            s1, s2 = st(m1), st(m2)
+            s1['marginals_fitted_on_B'] = leaf(ok_fit)
+            s2['marginals_fitted_on_B'] = leaf(True)
+        return s1, s2
+    paths, ex, _ = explore(fn, max_paths=3000, tlimit=120)
+    fails = []
+    for p in paths:
+        if p.status != 'ok':
+            fails.append({'what': f'{p.status}: {type(p.exc).__name__}: {str(p.exc)[:120]}', 'A': None, 'B': None})
+            continue
+        s = z3.Solver()
+        s.add(*p.ctx.pc)
+        dd = diff_state(p.value[0], p.value[1], s)
+        if dd:
+            fails.append({'what': '; '.join(dd[:3]), 'A': None, 'B': None})
+    return {'fam': 'GaussianMultivariate', 'na': 2, 'nb': 2, 'paths': len(paths), 'exhaustive': ex, 'fails': fails[:4], 'nfails': len(fails)}
+
+
+def concrete_multi_refit(which):
+    warnings.simplefilter('ignore')
+    rs = np.random.RandomState(3)
+    A = pd.DataFrame(rs.multivariate_normal([0, 0, 0], [[1, .7, .2], [.7, 1, .1], [.2, .1, 1]], 120), columns=list('xyz'))
+    B = pd.DataFrame(rs.multivariate_normal([5, 1, 2], [[2, -.9, .3], [-.9, 1, .0], [.3, .0, 1]], 150), columns=list('xyz'))
+    if which.startswith('Vine'):
+        for t in ('center', 'direct', 'regular'):
+            m1 = VineCopula(t)
+            m1.fit(A)
+            m1.fit(B)
+            m2 = VineCopula(t)
+            m2.fit(B)
+            if len(m1.trees) != len(m2.trees):
+                return True, f'VineCopula({t!r}): {len(m1.trees)} trees after fit(A).fit(B), {len(m2.trees)} after fit(B)'
+            u = np.array([[.3, .6, .5]])
+            a, b = m1.get_likelihood(u), m2.get_likelihood(u)
+            if not (np.isclose(a, b) or (a != a and b != b)):
+                return True, f'VineCopula({t!r}): likelihood {a} after a refit vs {b} for a fresh fit'
+        return False, ''
+    from copulas.univariate import GaussianUnivariate as GU
+    m1 = GaussianMultivariate(distribution=GU)
+    m1.fit(A)
+    m1.fit(B)
+    m2 = GaussianMultivariate(distribution=GU)
+    m2.fit(B)
+    if not np.allclose(m1.correlation.to_numpy(), m2.correlation.to_numpy()) or repr(_round(m1.to_dict())) != repr(_round(m2.to_dict())):
+        return True, 'GaussianMultivariate: fit(A).fit(B) differs from fit(B)'
+    return False, ''
 
 
 def task(a):
     t0 = time.time()
     try:
+        if a[0] == 'vine_two_fit':
+            r = vine_two_fit(a[1])
+            r['secs'] = time.time() - t0
+            return (('two_fit',) + a[1:], r)
+        if a[0] == 'gm_two_fit':
+            r = gm_two_fit()
+            r['secs'] = time.time() - t0
+            return (('two_fit',), r)
         if a[0] == 'two_fit':
             r = two_fit(*a[1:])
         elif a[0] == 'havoc':
@@ -446,7 +620,9 @@ def task(a):
 
 
 def replay(d):
-    if d.get('kind') == 'refit':
+    if d.get('kind') == 'multi_refit':
+        bad, detail = concrete_multi_refit(d['fam'])
+    elif d.get('kind') == 'refit':
         bad, detail, _ = concrete_refit_violation(d['fam'], d.get('A'), d.get('B'))
     elif d.get('kind') == 'havoc':
         bad, detail = concrete_havoc(d['type'], d.get('d', 4))
@@ -474,6 +650,7 @@ def run(tier, seed):
     ck.assumptions = ['scipy estimators are deterministic functions of their arguments']
     jobs = [('two_fit', f, na, nb) for f in FAMILIES for (na, nb) in sizes]
     jobs += [('havoc', 4, t) for t in ('center', 'direct', 'regular')]
+    jobs += [('vine_two_fit', t) for t in ('center', 'direct', 'regular')] + [('gm_two_fit',)]
     if tier != 'quick':
         jobs += [('havoc', 5, t) for t in ('direct',)]
     jobs.append(('misuse',))
@@ -490,6 +667,13 @@ def run(tier, seed):
                 ck.inconcl(nm + ': not exhaustive')
             ck.ob(nm, 'unsat' if not r['fails'] else 'sat', r['secs'], queries=r['paths'])
             for fl in r['fails'][:2]:
+                if r['fam'] not in FAMILIES:
+                    bad, detail = concrete_multi_refit(r['fam'])
+                    if bad:
+                        ck.violation(f"refit:{r['fam'].split('(')[0]}", f"{nm}: {fl['what']} -- {detail}", {'kind': 'multi_refit', 'fam': r['fam']})
+                    else:
+                        ck.inconcl(f"{nm}: {fl['what']}; not reproduced on the real code")
+                    break
                 bad, detail, data = concrete_refit_violation(r['fam'], fl['A'], fl['B'])
                 if bad:
                     ck.violation(f"refit:{r['fam'].split('(')[0]}", f"{nm}: {fl['what']} -- {detail}", {'kind': 'refit', 'fam': r['fam'], 'A': data[0], 'B': data[1]})
@@ -521,5 +705,10 @@ def run(tier, seed):
         bad, detail, data = concrete_refit_violation(fam)
         if bad:
             ck.violation(f"refit:{fam.split('(')[0]}", detail, {'kind': 'refit', 'fam': fam, 'A': data[0], 'B': data[1]})
+    for which in ('VineCopula', 'GaussianMultivariate'):
+        n += 1
+        bad, detail = concrete_multi_refit(which)
+        if bad:
+            ck.violation(f'refit:{which}', detail, {'kind': 'multi_refit', 'fam': which})
     ck.traces_validated = n
     return ck.finish()
